@@ -69,7 +69,11 @@ def build_reader(d, layout):
             paths = [str(p) for p in paths]          # file names given as strings
         elif int(layout.get('fill', 0)) % 3 == 2:
             paths = tuple(paths)                     # ... or the list as a tuple
-        reader = get_ephys_reader(paths, n_channels_dat=nc, dtype=dt, offset=off, sample_rate=sr)
+        if off == 0 and int(layout.get('fill', 0)) % 2 == 0:
+            # no header: the offset argument is left to its default in one half of the cases
+            reader = get_ephys_reader(paths, n_channels_dat=nc, dtype=dt, sample_rate=sr)
+        else:
+            reader = get_ephys_reader(paths, n_channels_dat=nc, dtype=dt, offset=off, sample_rate=sr)
         return reader, A
     assert len(layout['parts']) == 1
     if backend == 'array':
